@@ -47,6 +47,8 @@ type fakeDriver struct {
 	calls    []Call
 	scribble bool     // overwrite returned buffers after the call (C17)
 	returned [][]byte // buffers handed to the library
+	listenCB func([]byte)
+	noListen bool
 }
 
 func ipBytes(ip net.IP) []byte {
@@ -122,7 +124,18 @@ func (f *fakeDriver) SendTCP(addr *net.TCPAddr, req []byte) ([]byte, error) {
 	return f.directed()
 }
 
-func (f *fakeDriver) Listen(chan any, chan any, func([]byte)) error { return fmt.Errorf("not scripted") }
+// Listen: keeps the handler so that the harness can deliver datagrams to it; ends when signalled
+func (f *fakeDriver) Listen(signal chan any, done chan any, cb func([]byte)) error {
+	if f.noListen {
+		return fmt.Errorf("not scripted")
+	}
+	f.listenCB = cb
+	go func() {
+		<-signal
+		close(done)
+	}()
+	return nil
+}
 
 func callsCoq(calls []Call) string {
 	out := []string{}
